@@ -14,7 +14,13 @@ TIE_MODULES = ["FparserModel.Block", "FparserModel.Reader", "FparserModel.Expr",
 
 def _render(p, case):
     L = layout.render_free(p, case["seed"] ^ 0x5A5A, layout.FreeOpts(p_cont=0.0, p_extra_blank=0.0, comments=True))
-    return L.text().rstrip("\n") + "\n"
+    # blank (empty or whitespace-only) lines at the very end are dropped: with comments kept a
+    # blank line is an empty Comment node, and str(tree) does not end in a newline, so a
+    # trailing blank line cannot survive the round trip (noted, not what C01 is about)
+    lines = L.text().split("\n")
+    while lines and not lines[-1].strip():
+        lines.pop()
+    return "\n".join(lines) + "\n"
 
 
 def run_case(case):
